@@ -698,5 +698,40 @@ def clear_after_fill(args):
     return False, "every vector column of the probe queries is cleared right after the Fill"
 
 
+@driver
+def fill_once_per_row(args):
+    """event-level rows (one row per event): the Fill and the clears that follow it are statements of the per-event block itself, whatever the columns
+    contain (First(), counts, vectors) -- not of a block some column's computation opened (a First() guard, a loop)."""
+    import func_adl_xAOD.common.statement as statement
+    from func_adl_xAOD.common.ast_to_cpp_translator import query_ast_visitor
+    seen = []
+    real_emit = query_ast_visitor.emit_query
+
+    def spy(self, e):
+        seen.append(self._gc)
+        return real_emit(self, e)
+    query_ast_visitor.emit_query = spy
+    try:
+        for qs in ["lambda e: (e.Jets('A').First().pt(), e.Jets('A').Select(lambda j: j.pt()))",
+                   "lambda e: (e.Jets('A').Select(lambda j: j.pt()), e.Jets('A').First().pt())",
+                   "lambda e: (e.Jets('A').First().pt(), e.Jets('A').Count())",
+                   "lambda e: (e.Jets('A').Count(), e.Jets('A').Select(lambda j: j.eta()), e.Tracks('T').First().pt())",
+                   "lambda e: e.Jets('A').Select(lambda j: j.pt())"]:
+            seen.clear()
+            try:
+                translate(_dataset().Select(qs))
+            except Exception:
+                continue
+            for gc in seen:
+                root = gc._block
+                if not any(isinstance(s, statement.ttree_fill) for s in root._statements):
+                    where = [type(b).__name__ + ("(%s)" % b._expr.as_cpp() if isinstance(b, statement.iftest) and not isinstance(b, statement.elsephrase) else "")
+                             for b in _all_blocks(root) if any(isinstance(s, statement.ttree_fill) for s in b._statements)]
+                    return True, "%s: the Fill of the event's row is not a statement of the per-event block but of %s" % (qs, where or "no block at all")
+    finally:
+        query_ast_visitor.emit_query = real_emit
+    return False, "the Fill of every probe query is a statement of the per-event block"
+
+
 if __name__ == "__main__":
     main()
